@@ -29,7 +29,7 @@ OPS = ['modify'] * 5 + ['link'] * 6 + ['unlink'] * 2 + ['add'] * 2 + ['commit'] 
 
 
 def shards(tier, seed):
-    return split(tier, seed, 3200, 32000, 40, 900)
+    return split(tier, seed, 12000, 400000, 40, 900)
 
 
 def mkstorage(kind, d, FSM):
